@@ -88,6 +88,8 @@ const detChainID = "osmosis-1"
 
 var detDenoms = []string{"uosmo", "uion", "stake", "foo", "bar", "baz", "usdc", "eth"}
 
+const detProtorevBase2 = "usdc" // protorev base denom beside uosmo in the chain's genesis
+
 type detAcct struct {
 	priv *secp256k1.PrivKey
 	addr sdk.AccAddress
@@ -208,6 +210,9 @@ func detGenesis(app *osmoapp.OsmosisApp, accts []detAcct) []byte {
 	{
 		pg := protorevtypes.DefaultGenesis()
 		pg.Params.Admin = accts[1].addr.String()
+		// a second base denom from genesis: the highest-liquidity index (base denom, denom) -> pool is then maintained for
+		// pairs without uosmo as well, by the pool-creation hooks alone (no MsgSetBaseDenoms needed)
+		pg.BaseDenoms = append(append([]protorevtypes.BaseDenom{}, pg.BaseDenoms...), protorevtypes.BaseDenom{Denom: detProtorevBase2, StepSize: sdkmath.NewInt(1_000_000)})
 		gs[protorevtypes.ModuleName] = cdc.MustMarshalJSON(pg)
 	}
 	return mustMarshal(gs)
@@ -1376,6 +1381,16 @@ func detGenBlock(g *detGen, a *detNode, k int) []detTx {
 		return txs
 	}
 	pools := detPools(a)
+	if k == 2 || k == 3 {
+		// protorev warm-up (signers 0..6), then random transactions of the other accounts
+		txs := detProtorevWarmup(g, a, pools, k, fee)
+		for si := 7; si < len(g.accts); si++ {
+			if g.r.Intn(3) != 0 {
+				txs = append(txs, g.nextTx(a, pools, si))
+			}
+		}
+		return txs
+	}
 	ntx := g.r.Intn(10)
 	if k < 4 {
 		ntx = 5 + g.r.Intn(5)
@@ -1394,6 +1409,98 @@ func detGenBlock(g *detGen, a *detNode, k int) []detTx {
 	return txs
 }
 
+// detProtorevWarmup: the state in which x/protorev's derived index (base denom, denom) -> highest-liquidity pool is NOT
+// empty when the chain is exported.  Block 2: pools of every type on both base denoms of the genesis (uosmo and
+// detProtorevBase2), two balancer pools of different depth on one pair (the index has to pick one).  Block 3: a first
+// position in every concentrated pool (the pool-creation hook indexes a concentrated pool at its first position) and,
+// in half of the histories, MsgSetBaseDenoms by the admin (base denoms of the genesis + up to two more), which runs
+// UpdatePools on the exporting chain; in the other half the index is what the pool-creation hooks wrote, until a day epoch ends.
+func detProtorevWarmup(g *detGen, a *detNode, pools []poolInfo, k int, fee func(uint64) sdk.Coins) []detTx {
+	addr := func(i int) sdk.AccAddress { return g.accts[i].addr }
+	other := func(not ...string) string {
+		for {
+			d := detDenoms[g.r.Intn(len(detDenoms))]
+			ok := true
+			for _, n := range not {
+				ok = ok && d != n
+			}
+			if ok {
+				return d
+			}
+		}
+	}
+	mk := func(si int, kind string, gas uint64, m sdk.Msg) detTx {
+		return detTx{signer: si, gas: gas, fee: fee(gas), kind: kind, memo: "warmup", msgs: []sdk.Msg{m}}
+	}
+	bal := func(si int, d0, d1 string, x0, x1 int64) detTx {
+		if d0 > d1 {
+			d0, d1 = d1, d0
+		}
+		m := balancer.NewMsgCreateBalancerPool(addr(si), balancer.PoolParams{SwapFee: osmomath.MustNewDecFromStr("0.003"), ExitFee: osmomath.ZeroDec()},
+			[]balancer.PoolAsset{{Weight: sdkmath.NewInt(1), Token: sdk.NewInt64Coin(d0, x0)}, {Weight: sdkmath.NewInt(int64(1 + g.r.Intn(3))), Token: sdk.NewInt64Coin(d1, x1)}}, "")
+		return mk(si, "createbal", 950_000, &m)
+	}
+	stable := func(si int, d0, d1 string) detTx {
+		m := stableswap.NewMsgCreateStableswapPool(addr(si), stableswap.PoolParams{SwapFee: osmomath.MustNewDecFromStr("0.001"), ExitFee: osmomath.ZeroDec()},
+			sdk.NewCoins(sdk.NewInt64Coin(d0, 1_000_000+g.r.Int63n(3_000_000)), sdk.NewInt64Coin(d1, 1_000_000+g.r.Int63n(3_000_000))), []uint64{1, 1}, "")
+		return mk(si, "createstable", 950_000, &m)
+	}
+	cl := func(si int, d0, d1 string) detTx {
+		if g.r.Intn(2) == 0 {
+			d0, d1 = d1, d0
+		}
+		return mk(si, "createcl", 950_000, &clmodel.MsgCreateConcentratedPool{Sender: addr(si).String(), Denom0: d0, Denom1: d1, TickSpacing: []uint64{1, 10, 100}[g.r.Intn(3)], SpreadFactor: osmomath.MustNewDecFromStr("0.001")})
+	}
+	b2 := detProtorevBase2
+	if k == 2 {
+		dA := other("uosmo")
+		deep, shallow := 2_000_000+g.r.Int63n(8_000_000), 200_000+g.r.Int63n(800_000)
+		if g.r.Intn(2) == 0 {
+			deep, shallow = shallow, deep
+		}
+		return []detTx{
+			bal(0, "uosmo", dA, deep, deep+g.r.Int63n(1_000_000)),
+			bal(1, "uosmo", dA, shallow, shallow+g.r.Int63n(1_000_000)),
+			stable(2, "uosmo", other("uosmo")),
+			cl(3, "uosmo", other("uosmo")),
+			bal(4, b2, other(b2, "uosmo"), 500_000+g.r.Int63n(5_000_000), 500_000+g.r.Int63n(5_000_000)),
+			stable(5, b2, other(b2, "uosmo")),
+			cl(6, b2, other(b2, "uosmo")),
+		}
+	}
+	var txs []detTx
+	ctx := a.readCtx()
+	si := 3
+	for _, p := range pools {
+		if p.typ != poolmanagertypes.Concentrated || si > 6 {
+			continue
+		}
+		pool, err := a.app.ConcentratedLiquidityKeeper.GetConcentratedPoolById(ctx, p.id)
+		if err != nil {
+			continue
+		}
+		sp := int64(pool.GetTickSpacing())
+		lo, hi := cltypes.MinInitializedTick/sp*sp, cltypes.MaxTick/sp*sp
+		if g.r.Intn(3) == 0 { // straddling the current tick instead of full range
+			lo, hi = (pool.GetCurrentTick()/sp-int64(1+g.r.Intn(2000)))*sp, (pool.GetCurrentTick()/sp+int64(1+g.r.Intn(2000)))*sp
+		}
+		txs = append(txs, mk(si, "clpos", 950_000, &cltypes.MsgCreatePosition{PoolId: p.id, Sender: addr(si).String(), LowerTick: lo, UpperTick: hi,
+			TokensProvided:  sdk.NewCoins(sdk.NewInt64Coin(pool.GetToken0(), 500_000+g.r.Int63n(4_000_000)), sdk.NewInt64Coin(pool.GetToken1(), 500_000+g.r.Int63n(4_000_000))),
+			TokenMinAmount0: sdkmath.ZeroInt(), TokenMinAmount1: sdkmath.ZeroInt()}))
+		si += 3
+	}
+	if g.r.Intn(2) == 0 {
+		bds := []protorevtypes.BaseDenom{{Denom: "uosmo", StepSize: sdkmath.NewInt(1_000_000)}, {Denom: b2, StepSize: sdkmath.NewInt(1_000_000)}}
+		for _, d := range []string{other("uosmo", b2), other("uosmo", b2)} {
+			if g.r.Intn(2) == 0 && d != bds[len(bds)-1].Denom {
+				bds = append(bds, protorevtypes.BaseDenom{Denom: d, StepSize: sdkmath.NewInt(int64(1000 * (1 + g.r.Intn(1000))))})
+			}
+		}
+		txs = append(txs, mk(1, "protorevbase", 3_000_000, &protorevtypes.MsgSetBaseDenoms{Admin: addr(1).String(), BaseDenoms: bds}))
+	}
+	return txs
+}
+
 func runDetHistory(t *testing.T, o *Out, accts []detAcct, hseed int64, hist int, nb int) []string {
 	r := rand.New(rand.NewSource(hseed))
 	a := newDetNode(t, "A", accts)
@@ -1405,6 +1512,7 @@ func runDetHistory(t *testing.T, o *Out, accts []detAcct, hseed int64, hist int,
 	var c, d *detNode
 	var digests []string
 	var firstExport exportedState
+	updatePoolsRan := false // a successful MsgSetBaseDenoms or a block gap of a day or more (day epoch end) so far
 	for k := 0; k < nb; k++ {
 		txs := detGenBlock(g, a, k)
 		for _, tx := range txs {
@@ -1463,8 +1571,14 @@ func runDetHistory(t *testing.T, o *Out, accts []detAcct, hseed int64, hist int,
 				o.Count("block.gauge-distribution-to-2+-receivers")
 			}
 		}
+		if gaps[k] >= 24*time.Hour {
+			updatePoolsRan = true
+		}
 		for i, res := range obA.txs {
 			if strings.HasPrefix(res, "code=0 ") {
+				if strings.HasPrefix(txs[i].kind, "protorevbase") {
+					updatePoolsRan = true
+				}
 				o.Count("txok." + strings.SplitN(txs[i].kind, "+", 2)[0])
 				o.Count("tx-result.ok")
 			} else if strings.Contains(res, "out of gas") {
@@ -1600,6 +1714,11 @@ func runDetHistory(t *testing.T, o *Out, accts []detAcct, hseed int64, hist int,
 			}
 			detCompareExports(o, hist, k, "import", firstExport, re, true)
 			detCompareReports(o, hist, k, "import", a, c)
+			// every lookup table InitGenesis rebuilds, asked on both nodes before the imported one executes a block
+			detLookupOracles(o, hist, k, a, c, accts)
+			if updatePoolsRan {
+				o.Count("state.protorev.update-pools-ran-before-export")
+			}
 			// second imported node whose raw KV stores are then made byte-identical to A's
 			nd, err := importDetNode(t, "D", exp, a.time, a.valAddr, true)
 			if err == nil {
